@@ -15,12 +15,12 @@ THEOREMS = ["C17_sums", "C17_linear_normal_equations", "C17_quadratic_normal_equ
             "C17_degenerate_refused", "C17_correlation", "C17_input_forms",
             "C17_correlation_collinear", "C17_correlation_rescaling", "C17_permutation_invariance",
             "C17_general_permutation_invariance", "C17_noiseless_recovered", "C17_menu_instances",
-            "C17_input_forms_any_length", "C17_linear_minimises", "C17_r_one_iff_collinear"]
+            "C17_input_forms_any_length", "C17_linear_minimises", "C17_r_one_iff_collinear", "C17_correlation_range"]
 PROOF_TIMEOUT = {"quick": 1500, "thorough": 3000}
 EXHAUSTIVE = False
 MANIFEST = {
     "category": "proof",
-    "text": "Ideal (real-arithmetic) instance of the regenerated model, data lists of ANY length (induction over the generated loops): the stored sums are the power sums; whenever the generated guards let a result through, linear/quadratic/general_fitting satisfy the 2x2/3x3 normal equations (residuals orthogonal to every basis function, arbitrary basis functions), general(x^2,x,1) = quadratic and general(x,1,0) = linear, exactly degenerate data give ZeroDivisionError, correlation formula, |r| <= 1 (Cauchy-Schwarz), r = +-1 on collinear data, affine invariance, sign flips, permutation invariance of all fits, noiseless data recovered exactly; constructor/set() build that object from every input form for tables of any length, linear fit = unique minimiser of the residual sum, |r| = 1 iff collinear; all theorems ideal-instance only (binary64 rounding searched, not proved); bit-exact correspondence incl. basis-function values; exact rational (Fraction) reference search on the implementation.",
+    "text": "Ideal (real-arithmetic) instance of the regenerated model, data lists of ANY length (induction over the generated loops): the stored sums are the power sums; whenever the generated guards let a result through, linear/quadratic/general_fitting satisfy the 2x2/3x3 normal equations (residuals orthogonal to every basis function, arbitrary basis functions), general(x^2,x,1) = quadratic and general(x,1,0) = linear, exactly degenerate data give ZeroDivisionError, correlation coefficient = the textbook quotient, returned value in [-1,1] outright (final limitation proved to be the identity on data sets by Cauchy-Schwarz), r = +-1 on collinear data, affine invariance, sign flips, permutation invariance of all fits, noiseless data recovered exactly; constructor/set() build that object from every input form for tables of any length, linear fit = unique minimiser of the residual sum, |r| = 1 iff collinear; all theorems ideal-instance only (binary64 rounding searched, not proved); bit-exact correspondence incl. basis-function values; exact rational (Fraction) reference search on the implementation with an implementation-independent definition of well-conditioned.",
     "technique": "generated model + symbolic evaluation (pyrun) + induction over lists + field/nra in the ideal instance + bit-exact differential correspondence + exact rational oracle",
     "design_ref": "8/C17",
 }
@@ -31,7 +31,7 @@ EXPLANATION = ("The model of CurveFitting regenerated from /repo is read in exac
                "general(x^2,x,1)=quadratic, general(x,1,null)=linear, |r|<=1, r=+-1 on collinear data, affine invariance, "
                "permutation invariance, noiseless recovery. All theorems are about the ideal instance starting from the stored "
                "object cf_of xs ys, which the constructor / set() is proved to build from every input form for tables of any length (except the single-list form); the linear fit is proved to be the unique minimiser of the residual sum; binary64 rounding is not covered "
-               "by any theorem and is searched against an exact rational reference with a conditioning gate.")
+               "by any theorem and is searched against an exact rational reference; well-conditioned is defined on the exact normal equations only (scaled condition number times right-hand-side cancellation <= 1e6).")
 CLAUSES = {
     "stored sums are N, Sx, Sx2, Sx3, Sx4, Sy, Sxy, Sx2y, Sy2 (float data lists of any length)": "proved [ideal, induction over the generated loop of _compute_parameters]",
     "linear fit solves the 2x2 normal equations / residuals orthogonal to x and 1 when the guard passes, else ZeroDivisionError; it MINIMISES the sum of squared residuals over all lines and is the unique minimiser": "proved [ideal, any length]",
@@ -39,11 +39,11 @@ CLAUSES = {
     "general fit: residuals orthogonal to every basis function (ARBITRARY f0,f1,f2; 3-function branch), 2x2 normal equations in the 2-function branch, all three refusal branches": "proved [ideal, NON-EMPTY float data of any length, induction over the generated loop of general_fitting; function values abstracted by `call` with hypotheses call f_k [VFloat x] = VFloat (g_k x), shown satisfiable by the concrete interpreter menu_call (C17_menu_instances)]",
     "general(x^2, x, 1) = quadratic fit; general(x, 1, null) = linear fit": "proved [ideal, any length, equal returned values; side conditions: the guards of both methods pass (general(x,1) additionally needs Sx2 >= TOL)]",
     "exactly degenerate data (all x equal) => ZeroDivisionError from linear/quadratic fit and correlation": "proved [ideal: exact-zero determinant only]; binary64: data whose determinant evaluated in binary64 is below TOL are searched strictly (key degenerate-not-refused); the known finding degenerate-inexact-not-refused is restricted to: exact determinant 0 (Fraction) AND the documented closed form evaluated in binary64 does not refuse AND the implementation returns bit-identically that result; any other outcome gets key degenerate-inexact-other",
-    "correlation coefficient = cov/(sqrt varx * sqrt vary), |r| <= 1, sign flip under y -> -y": "proved [ideal, any length; Cauchy-Schwarz over lists]",
+    "the correlation coefficient lies in [-1, 1]: the returned value is max(-1, min(1, quotient)) for ANY stored sums; for the sums of a data set the limitation is the identity (|quotient| <= 1 by Cauchy-Schwarz), i.e. the returned r is the textbook cov/(sqrt varx * sqrt vary); sign flip under y -> -y": "proved [ideal, any length]; binary64: |r| <= 1 checked LITERALLY on every data set on which the call returns (no gate, no slack)",
     "input forms, tables of ANY length: two lists / two tuples (cut to the shorter one, m = min), interleaved scalars (odd trailing one dropped), copy constructor, set() on an existing object all store cf_of xs ys = the data with their power sums; fewer than two points in a list => ValueError": "proved [ideal, any length >= 2, float entries, whatever the object under construction holds; induction over the generated loops of CurveFitting.set]; not covered by a theorem: the single-list form CurveFitting(ys) (integer abscissae 0..n-1), int/Angle entries, tuples too short; searched for 2-200 points: 7 forms bit-identical",
-    "r = +-1 for collinear data (y = al*x + be, al <> 0, x not all equal) and |r| = 1 ONLY for collinear data; r unchanged by positive affine rescaling of either variable, sign flip under a negative one / negation of x or y": "proved [ideal, any length]; binary64: searched against the exact rational r incl. pure changes of scale 1e-7..1e7 and abscissae spaced 2^-20 (|r| <= 1 + 1e-9 accepted: rounding gives up to 1.0000000000000844 on collinear data)",
-    "noiseless data are recovered: points exactly on a line / parabola give back its coefficients when the guard passes": "proved [ideal, any length]",
-    "relative 1e-6 agreement of the binary64 result with the exact rational solution on well-conditioned data": "unproved (searched): rounding is outside the ideal instance; Fraction reference with a conditioning gate (first-order rounding estimate of the closed form <= 1e-7 relative)",
+    "r = +-1 for collinear data (y = al*x + be, al <> 0, x not all equal) and |r| = 1 ONLY for collinear data; r unchanged by positive affine rescaling of either variable, sign flip under a negative one / negation of x or y": "proved [ideal, any length]; binary64: searched on every data set (no gate) with tolerance 1e-6 + 16*err, err = 4(n+16)*eps*[(n S|xy| + S|x|S|y|)/sqrt(vx vy) + |r|(kx + ky)], kx = (n Sx2 + (S|x|)^2)/vx the mean-offset ratio of the data: 1e-6 (to within 10 %) when err <= 1e-7, growing in proportion to the offset ratios otherwise; incl. pure changes of scale 1e-7..1e7 and abscissae spaced 2^-20; |r| <= 1 literal",
+    "noiseless data are recovered exactly: points exactly on a line / parabola give back its coefficients when the guard passes": "proved [ideal, any length]; binary64: BIT-EXACT equality demanded on data with integer abscissae |x| <= 15 and integer coefficients (all sums exact); on exactly representable dyadic data whose sums round: within 16(n+16)*eps*K of the scaled solution (a few ulps times the condition number K) on every set with K <= 1e6",
+    "relative 1e-6 agreement of the binary64 result with the exact rational solution on well-conditioned data": "unproved (searched): rounding is outside the ideal instance. Well-conditioned is defined on the exact (Fraction) normal equations only: K = cond_inf of the normal matrix scaled to unit diagonal times the cancellation factor of the right-hand side, K <= 1e6 (n*eps*K <= 2.3e-8 for n <= 200); every such set is checked (about 80 % of the generated sets), 1e-6 read normwise on the scaled solution (max_j |da_j| sqrt(M_jj) <= 1e-6 max_j |a_j| sqrt(M_jj)), residual orthogonality likewise; a raise on such a set is a finding (<fit>-raises-well-conditioned; the absolute-tolerance cause has the key well-conditioned-refused-absolute-tol)",
     "independence of the order of the points (Permutation of the point list): linear, quadratic fit, correlation; general fit with arbitrary basis functions in every branch its closed forms cover": "proved [ideal, any length: the exact real sums are symmetric; says nothing about the order of binary64 summation]; binary64: searched (all permutations of sets of <= 5 points, 3 random ones of larger sets, relative 1e-6)",
     "general_fitting(f0, f1) with the default null third function": "modelled by hand: the translator cannot render the lambda default, cases pass bf_zero explicitly; the search checks general_fitting(bf_x, bf_one) == general_fitting(bf_x, bf_one, bf_zero) on the implementation",
 }
@@ -203,43 +203,56 @@ class Oracle:
 
     # --- coefficient tuples against the exact solution
     def check_fit(self, xs, ys, expr, got, fvals, key, label):
-        """got: ('ok', tuple) or ('exc', name); fvals: basis values (non-null functions only)"""
+        """got: ('ok', tuple) or ('exc', name); fvals: basis values (non-null functions only).
+        Well-conditioned is decided on the exact normal equations alone (R.conditioning, K <= R.KMAX);
+        every such set is checked, a raise on it is a finding."""
         self.n += 1
         sol = R.solve(fvals, ys)
         if sol is None:
             return None
         k = len(fvals)
-        gated = [j for j in range(k) if R.well_conditioned(sol, j)]
-        diag_ok = all(float(sol["M"][j][j]) >= 1e-6 for j in range(k)) and abs(float(sol["d"])) >= 1e-6
+        wc = R.well_conditioned(sol)
         if got[0] == "exc":
-            if len(gated) == k and diag_ok:
-                self.report(key + "-raises", "%s raises %s on well-conditioned data (exact solution %s)"
-                            % (label, got[1], [float(c) for c in sol["coef"]]), xs, ys, expr)
+            if wc:
+                # the degeneracy guards compare a determinant with the ABSOLUTE tolerance 1e-10; that exact cause
+                # (ZeroDivisionError although well-conditioned, exact determinant - or, in general_fitting, the exact
+                # product of the diagonal sums - below 1.01e-10) has its own key; every other raise is a separate finding
+                tiny = abs(float(sol["d"])) < 1.01e-10
+                if key == "general":
+                    prod = 1.0
+                    for j in range(k): prod *= float(sol["M"][j][j])
+                    tiny = tiny or prod < 1.01e-10
+                if got[1] == "ZeroDivisionError" and tiny:
+                    self.report("well-conditioned-refused-absolute-tol", "%s raises ZeroDivisionError on well-conditioned data (K = %.3g) because the determinant %.3g is below the absolute tolerance 1e-10; exact solution %s"
+                                % (label, sol["cond"]["K"], float(sol["d"]), [float(c) for c in sol["coef"]]), xs, ys, expr)
+                else:
+                    self.report(key + "-raises-well-conditioned", "%s raises %s on well-conditioned data (K = %.3g, determinant %.3g, exact solution %s)"
+                                % (label, got[1], sol["cond"]["K"], float(sol["d"]), [float(c) for c in sol["coef"]]), xs, ys, expr)
             return sol
         res = got[1]
-        if not diag_ok:
-            return sol
-        if gated: self.nontrivial += 1
-        for j in gated:
-            c = float(sol["coef"][j])
-            if not (abs(res[j] - c) <= 1e-6 * abs(c)):
-                self.report(key + "-coefficient", "%s returns %r, the exact least-squares solution is %r (coefficient %d off by %.3g relative)"
-                            % (label, tuple(res), tuple(float(x) for x in sol["coef"]), j, abs(res[j] - c) / abs(c)), xs, ys, expr)
-                return sol
-        # the null functions' coefficients must be exactly 0.0
+        # the null functions' coefficients must be exactly 0.0 (always)
         for j in range(k, len(res)):
             if res[j] != 0.0:
                 self.report(key + "-coefficient", "%s returns %r: coefficient %d of a null function is not 0" % (label, tuple(res), j), xs, ys, expr)
-        if len(gated) == k:
-            # residuals orthogonal to every basis function (exact arithmetic on the returned floats)
-            F = [[Q(v) for v in col] for col in fvals]
-            for i in range(k):
-                s = sum((Q(ys[p]) - sum(Q(res[j]) * F[j][p] for j in range(k))) * F[i][p] for p in range(len(ys)))
-                scale = sum(abs(res[j]) * sol["Mabs"][i][j] for j in range(k))
-                if abs(float(s)) > 2e-6 * scale:
-                    self.report(key + "-orthogonality", "%s: residuals not orthogonal to basis function %d: sum r*f = %.3g (scale %.3g)"
-                                % (label, i, float(s), scale), xs, ys, expr)
-                    break
+        if not wc:
+            return sol
+        self.nontrivial += 1
+        sc, zmax = sol["cond"]["s"], sol["cond"]["zmax"]
+        for j in range(k):
+            c = float(sol["coef"][j])
+            if not (abs(res[j] - c) * sc[j] <= 1e-6 * zmax):
+                self.report(key + "-coefficient", "%s returns %r, the exact least-squares solution is %r (coefficient %d off by %.3g of the scaled solution, K = %.3g)"
+                            % (label, tuple(res), tuple(float(x) for x in sol["coef"]), j, abs(res[j] - c) * sc[j] / zmax, sol["cond"]["K"]), xs, ys, expr)
+                return sol
+        # residuals orthogonal to every basis function (exact arithmetic on the returned floats):
+        # sum r f_i / s_i = sum_j (a_j - a^_j) s_j Ms_ij, |Ms_ij| <= 1, so <= k * 1e-6 * zmax
+        F = [[Q(v) for v in col] for col in fvals]
+        for i in range(k):
+            t = sum((Q(ys[p]) - sum(Q(res[j]) * F[j][p] for j in range(k))) * F[i][p] for p in range(len(ys)))
+            if abs(float(t)) / sc[i] > k * 1e-6 * zmax:
+                self.report(key + "-orthogonality", "%s: residuals not orthogonal to basis function %d: sum r*f/|f| = %.3g (scaled solution %.3g)"
+                            % (label, i, float(t) / sc[i], zmax), xs, ys, expr)
+                break
         return sol
 
     def fits(self, xs, ys, triple=None, light=False):
@@ -281,18 +294,17 @@ class Oracle:
         if a is None or b is None: return
         self.n += 1
         sol = R.solve(fvals, ys)
-        if sol is None: return
+        if sol is None or not R.well_conditioned(sol): return
         k = len(fvals)
-        if not all(R.well_conditioned(sol, j, 1e-8) for j in range(k)): return
-        if abs(float(sol["d"])) < 1e-6 or any(float(sol["M"][j][j]) < 1e-6 for j in range(k)): return
         self.nontrivial += 1
         if a[0] != b[0]:
             self.report(key, "%s gives %r but %s gives %r" % (la, a, lb, b), xs, ys, expr); return
         if a[0] == "exc":
             if a[1] != b[1]: self.report(key, "%s raises %s but %s raises %s" % (la, a[1], lb, b[1]), xs, ys, expr)
             return
+        sc, zmax = sol["cond"]["s"], sol["cond"]["zmax"]
         for j in range(k):
-            if not (abs(a[1][j] - b[1][j]) <= 1e-6 * max(abs(a[1][j]), abs(b[1][j]))):
+            if not (abs(a[1][j] - b[1][j]) * sc[j] <= 2e-6 * zmax):
                 self.report(key, "%s = %r but %s = %r" % (la, tuple(a[1]), lb, tuple(b[1])), xs, ys, expr); return
 
     # --- permutations and input forms
@@ -315,19 +327,20 @@ class Oracle:
             for m in ("linear_fitting", "quadratic_fitting", "general"):
                 self.n += 1
                 sol = sols[m]
-                if sol is None or not all(R.well_conditioned(sol, j, 1e-8) for j in range(len(sol["coef"]))): continue
-                if abs(float(sol["d"])) < 1e-6: continue
+                if sol is None or not R.well_conditioned(sol): continue
                 g = call(getattr(cfp, m)) if m != "general" else call(lambda: cfp.general_fitting(B.bf_sin, B.bf_cos, B.bf_one))
                 b = base[m]
                 self.nontrivial += 1
                 expr = "cf.%s()" % m if m != "general" else "cf.general_fitting(bf_sin, bf_cos, bf_one)"
-                if g[0] != b[0] or (g[0] == "ok" and any(not (abs(u - v) <= 1e-6 * max(abs(u), abs(v))) for u, v in zip(g[1], b[1]))):
+                sc, zmax = sol["cond"]["s"], sol["cond"]["zmax"]
+                if g[0] != b[0] or (g[0] == "ok" and any(not (abs(u - v) * sj <= 2e-6 * zmax) for u, v, sj in zip(g[1], b[1], sc))):
                     self.report("permutation", "%s depends on the order of the points: %r for %s, %r for the permutation %s"
                                 % (m, b, lst(xs), g, list(p)), px, py, expr)
-            if corr is not None and corr[1] <= 1e-8:
+            if corr is not None:
                 self.n += 1
                 g = call(cfp.correlation_coeff); b = base["correlation_coeff"]
-                if g[0] != b[0] or (g[0] == "ok" and abs(g[1] - b[1]) > 1e-6):
+                tol = 2 * (1e-6 + 16 * corr[1])
+                if (g[0] != b[0] and corr[1] <= 1e-7) or (g[0] == "ok" and b[0] == "ok" and abs(g[1] - b[1]) > tol):
                     self.report("permutation", "correlation_coeff depends on the order of the points: %r vs %r" % (b, g), px, py, "cf.correlation_coeff()")
 
     def forms(self, xs, ys):
@@ -368,46 +381,49 @@ class Oracle:
         # sign flip: exact in binary64 as well (negation commutes with every operation used)
         if got[0] != neg[0] or (got[0] == "ok" and not (neg[1] == -got[1])) or (got[0] == "exc" and got[1] != neg[1]):
             self.report("correlation-sign-flip", "correlation_coeff = %r but %r after negating y" % (got, neg), xs, ys, "cf.correlation_coeff()")
+        # the coefficient lies in [-1, 1]: literally, on every data set on which the call returns
+        if got[0] == "ok" and not (abs(got[1]) <= 1.0):
+            self.report("correlation-range", "correlation_coeff = %r outside [-1, 1]" % (got[1],), xs, ys, "cf.correlation_coeff()")
         if ref is None:
             return
+        # tolerance for comparisons with the exact r: 1e-6 + 16*err, err = 4(n+16)*eps*[(n S|xy| + S|x| S|y|)/sqrt(vx vy)
+        # + |r| (kx + ky)], kx = (n Sx2 + (S|x|)^2)/vx the mean-offset ratio of the data (R.correlation); applied to
+        # every data set, it is 1e-6 to within 10 % on well-conditioned ones (err <= 1e-7) and grows with kx, ky
         r, err = ref
-        if err > 1e-7: return
-        self.nontrivial += 1
+        tol = 1e-6 + 16 * err
         if got[0] != "ok":
-            self.report("correlation-raises", "correlation_coeff raises %s on regular data (exact r = %r)" % (got[1], r), xs, ys, "cf.correlation_coeff()")
+            if err <= 1e-7:
+                self.report("correlation-raises-well-conditioned", "correlation_coeff raises %s on regular data (exact r = %r)" % (got[1], r), xs, ys, "cf.correlation_coeff()")
             return
+        if err <= 1e-7: self.nontrivial += 1
         g = got[1]
-        if not (abs(g) <= 1 + 1e-9):
-            self.report("correlation-range", "correlation_coeff = %r outside [-1, 1]" % g, xs, ys, "cf.correlation_coeff()")
-        if not (abs(g - r) <= 1e-6):
-            self.report("correlation-value", "correlation_coeff = %r, exact value %r" % (g, r), xs, ys, "cf.correlation_coeff()")
-        if collinear and not (abs(abs(g) - 1) <= 1e-6):
-            self.report("correlation-collinear", "correlation_coeff = %r on collinear data" % g, xs, ys, "cf.correlation_coeff()")
-        # positive affine rescaling of either variable
+        if not (abs(g - r) <= tol):
+            self.report("correlation-value", "correlation_coeff = %r, exact value %r (tolerance %.3g)" % (g, r, tol), xs, ys, "cf.correlation_coeff()")
+        if collinear and not (abs(abs(g) - 1) <= tol):
+            self.report("correlation-collinear", "correlation_coeff = %r on collinear data (tolerance %.3g)" % (g, tol), xs, ys, "cf.correlation_coeff()")
+        # positive affine rescaling of either variable, and pure changes of scale over 1e-7 .. 1e7
+        # (the coefficient has no absolute threshold to cross)
         al = rng.choice([2.0, 0.5, 3.7, 1e-2, 12.5]); be = rng.choice([0.0, 1.0, -17.25, 100.0])
-        for which in (0, 1):
-            xs2 = [al * x + be for x in xs] if which == 0 else list(xs)
-            ys2 = [al * y + be for y in ys] if which == 1 else list(ys)
-            ref2 = R.correlation(xs2, ys2)
-            if ref2 is None or ref2[1] > 1e-7: continue
-            self.n += 1
-            g2 = call(CF(xs2, ys2).correlation_coeff)
-            if g2[0] != "ok" or not (abs(g2[1] - g) <= 2e-6):
-                self.report("correlation-affine", "correlation_coeff = %r, but %r after rescaling %s -> %r*v + %r"
-                            % (g, g2, "xy"[which], al, be), xs2, ys2, "cf.correlation_coeff()")
-
-        # pure changes of scale over 1e-7 .. 1e7 (the coefficient has no absolute threshold to cross)
-        for which in (0, 1, 2):
+        trials = [("xy"[w] + " -> %r*v + %r" % (al, be), al if w == 0 else None, al if w == 1 else None, be) for w in (0, 1)]
+        for w in (0, 1, 2):
             sc = rng.choice([1e-7, 2.0 ** -20, 1e-4, 1e4, 1e7])
-            xs2 = [sc * x for x in xs] if which in (0, 2) else list(xs)
-            ys2 = [sc * y for y in ys] if which in (1, 2) else list(ys)
+            trials.append((("x", "y", "x and y")[w] + " times %r" % sc, sc if w in (0, 2) else None, sc if w in (1, 2) else None, 0.0))
+        for what, ax, ay, be in trials:
+            xs2 = [ax * x + be for x in xs] if ax is not None else list(xs)
+            ys2 = [ay * y + be for y in ys] if ay is not None else list(ys)
             ref2 = R.correlation(xs2, ys2)
-            if ref2 is None or ref2[1] > 1e-7: continue
-            self.n += 1; self.nontrivial += 1
+            if ref2 is None: continue
+            self.n += 1
+            tol2 = 1e-6 + 16 * ref2[1]
             g2 = call(CF(xs2, ys2).correlation_coeff)
-            if g2[0] != "ok" or not (abs(g2[1] - ref2[0]) <= 1e-6) or not (abs(g2[1] - g) <= 2e-6):
-                self.report("correlation-scale", "correlation_coeff = %r, but %r after multiplying %s by %r (exact value %r)"
-                            % (g, g2, ("x", "y", "x and y")[which], sc, ref2[0]), xs2, ys2, "cf.correlation_coeff()")
+            if g2[0] != "ok":
+                if ref2[1] <= 1e-7:
+                    self.report("correlation-scale", "correlation_coeff = %r, but %r after rescaling %s (exact value %r)" % (g, g2, what, ref2[0]), xs2, ys2, "cf.correlation_coeff()")
+                continue
+            if ref2[1] <= 1e-7: self.nontrivial += 1
+            if not (abs(g2[1]) <= 1.0) or not (abs(g2[1] - ref2[0]) <= tol2) or not (abs(g2[1] - g) <= tol + tol2):
+                self.report("correlation-scale", "correlation_coeff = %r, but %r after rescaling %s (exact value %r, tolerance %.3g)"
+                            % (g, g2, what, ref2[0], tol + tol2), xs2, ys2, "cf.correlation_coeff()")
 
     # --- degenerate data
     def degenerate(self, rng):
@@ -511,7 +527,8 @@ def search(rng, tier, deep):
         if n <= 4: O.perms(rng, xs, ys, True)
         elif n == 5 and it % 4 == 0: O.perms(rng, xs, ys, True)
         elif it % 3 == 0: O.perms(rng, xs, ys, False)
-    # noiseless data are recovered
+    # noiseless data are recovered EXACTLY: integer abscissae |x| <= 15 and integer coefficients, so every sum
+    # and every product of the closed forms is exact in binary64 and the quotient a*d/d is a: bit-exact equality
     for it in range(300 if full else 80):
         xs, ys, deg, cs = noiseless_exact(rng)
         CF = O.CF
@@ -519,15 +536,38 @@ def search(rng, tier, deep):
         O.n += 1; O.nontrivial += 1
         g = call(cf.linear_fitting) if deg == 1 else call(cf.quadratic_fitting)
         expr = "cf.linear_fitting()" if deg == 1 else "cf.quadratic_fitting()"
-        if g[0] != "ok" or any(abs(u - c) > 1e-6 * max(1.0, abs(c)) for u, c in zip(g[1], cs)):
-            O.report("noiseless-not-recovered", "data exactly on the curve with coefficients %r, %s returns %r" % (cs, expr, g), xs, ys, expr)
+        if g[0] != "ok" or any(u != float(c) for u, c in zip(g[1], cs)):
+            O.report("noiseless-not-recovered", "data exactly on the curve with coefficients %r, %s returns %r (bit-exact recovery expected: all sums exact)" % (cs, expr, g), xs, ys, expr)
         names = ("bf_x2", "bf_x", "bf_one") if deg == 2 else ("bf_x", "bf_one", "bf_zero")
         g = call(lambda: cf.general_fitting(*[BASES[f] for f in names]))
-        if g[0] != "ok" or any(abs(u - c) > 1e-6 * max(1.0, abs(c)) for u, c in zip(g[1], cs)):
-            O.report("noiseless-not-recovered", "data exactly on the curve with coefficients %r, general_fitting%r returns %r" % (cs, names, g),
+        if g[0] != "ok" or any(u != float(c) for u, c in zip(g[1], cs)):
+            O.report("noiseless-not-recovered", "data exactly on the curve with coefficients %r, general_fitting%r returns %r (bit-exact recovery expected)" % (cs, names, g),
                      xs, ys, "cf.general_fitting(%s, %s, %s)" % names)
         if deg == 1:
             O.corr(rng, xs, ys, collinear=True)
+    # noiseless data with dyadic (not integer) abscissae and coefficients: the ordinates are exactly on the curve
+    # but the sums round; the coefficients must come back to within 16(n+16)*eps*K of the scaled solution
+    # (K = R.conditioning; i.e. a few ulps times the condition number), on every set with K <= KMAX
+    for it in range(300 if full else 80):
+        n = rng.randint(3, 40)
+        xs = [rng.randint(-800, 800) / 8.0 for _ in range(n)]
+        deg = rng.choice([1, 2])
+        cs = [rng.randint(-200, 200) / 4.0 for _ in range(deg + 1)]
+        if cs[0] == 0: cs[0] = 0.25
+        yq = [sum(Q(c) * Q(x) ** (deg - i) for i, c in enumerate(cs)) for x in xs]
+        ys = [float(y) for y in yq]
+        if any(Q(y) != q for y, q in zip(ys, yq)): continue
+        fv = [[x * x for x in xs], list(xs), [1.0] * n] if deg == 2 else [list(xs), [1.0] * n]
+        sol = R.solve(fv, ys)
+        if sol is None or not R.well_conditioned(sol): continue
+        cf = O.CF(xs, ys)
+        O.n += 1; O.nontrivial += 1
+        g = call(cf.linear_fitting) if deg == 1 else call(cf.quadratic_fitting)
+        expr = "cf.linear_fitting()" if deg == 1 else "cf.quadratic_fitting()"
+        tolz = 16 * (n + 16) * R.EPS * sol["cond"]["K"] * sol["cond"]["zmax"]
+        if g[0] != "ok" or any(abs(u - c) * sj > tolz for u, c, sj in zip(g[1], cs, sol["cond"]["s"])):
+            O.report("noiseless-not-recovered", "data exactly on the curve with coefficients %r, %s returns %r (allowed deviation %.3g of the scaled solution, K = %.3g)"
+                     % (cs, expr, g, tolz / sol["cond"]["zmax"], sol["cond"]["K"]), xs, ys, expr)
     # collinear data in floats
     for it in range(300 if full else 60):
         n = rng.randint(2, 30)
@@ -547,7 +587,7 @@ def search(rng, tier, deep):
     stats = {"evaluations": O.n, "distinct_nontrivial": O.nontrivial,
              "rule": "data sets of 2-200 points (spread/clustered/grid abscissae in [-1e3,1e3], noiseless/noisy/random ordinates): "
                      "linear/quadratic/general fits against the exact rational solution of the normal equations (relative 1e-6 "
-                     "demanded where a first-order rounding estimate of the closed form is below 1e-7 relative = non-trivial), "
+                     "demanded normwise on the scaled solution of every set whose exact normal equations have K <= 1e6 = non-trivial; raises there are findings), "
                      "residual orthogonality, general(x^2,x,1)=quadratic, general(x,1)=linear, all permutations of sets of <= 5 points, "
                      "7 input forms bit-identical, correlation coefficient (range, exact value, collinear, affine, sign flip), degenerate data",
              "samples": [{"input": "xs=[1.0,2.0,3.5], ys=[2.0,4.1,7.2]", "checked": "linear_fitting vs Fraction solution, orthogonality, forms, permutations"}],
